@@ -318,7 +318,7 @@ fn c24_step_unregister__known() {
     kani::cover!(o.code == 0, "an unregister was accepted");
 }
 
-// @check props=C24 tier=thorough
+// @check props=C24 tier=quick
 // @desc an instance without ownership record (never owned, or released by a missed deadline or -- once KF-C24-2 is repaired -- by the owner's unregister): data from any matched writer, whatever its strength, is accepted and that writer is the owner afterwards -- together with 'the owner's unregister releases the instance' (c24_step_unregister__known) this is the hand-over on unregister
 // @bounds 1 instance (fully symbolic state), no stored sample, writers A and B matched with symbolic strengths (full i32 range), no ownership record, one ALIVE change from A or B; unwind 4
 // @assume reader QoS: EXCLUSIVE ownership, KEEP_ALL, unlimited resource limits
